@@ -73,7 +73,7 @@ func c14Gen(r *rand.Rand) *c14Case {
 	k := 1 + r.Intn(3)
 	for i := 0; i < k; i++ {
 		c.Versions = append(c.Versions, core.Pick(r, c14Versions...))
-		c.Years = append(c.Years, fmt.Sprint(2022+r.Intn(80)))
+		c.Years = append(c.Years, core.Pick(r, fmt.Sprint(2022+r.Intn(80)), fmt.Sprint(2022+r.Intn(80)), fmt.Sprint(2022+r.Intn(80)), "0999", "0001", "1000", "9999", "2008"))
 	}
 	if core.Chance(r, 1, 4) && k > 1 {
 		c.Versions[k-1] = c.Versions[k-2] // repeat: must be a no-op
@@ -112,7 +112,8 @@ func c14Gen(r *rand.Rand) *c14Case {
 			return c14Line{kind, core.Pick(r, "    ver:'OWASP_CRS/%V',\\", "    ver:'OWASP_CRS/%V'\"", "#    ver:'OWASP_CRS/%V',\\", "    t:none,ver:'OWASP_CRS/%V',severity:'CRITICAL',\\")}
 		case "two":
 			// two marker kinds on one physical line
-			return c14Line{kind, core.Pick(r, "SecAction \"id:900990,phase:1,pass,nolog,ver:'OWASP_CRS/%V',setvar:tx.crs_setup_version=%D\"", "    ver:'OWASP_CRS/%V',setvar:tx.crs_setup_version=%D,\\")}
+			return c14Line{kind, core.Pick(r, "SecAction \"id:900990,phase:1,pass,nolog,ver:'OWASP_CRS/%V',setvar:tx.crs_setup_version=%D\"", "    ver:'OWASP_CRS/%V',setvar:tx.crs_setup_version=%D,\\",
+				"    ver:'OWASP_CRS/%V',msg:'x',ver:'OWASP_CRS/%V',\\", "    setvar:tx.crs_setup_version=%D,setvar:tx.crs_setup_version=%D\"")}
 		default:
 			return c14Line{"sig", "SecComponentSignature \"OWASP_CRS/%V\""}
 		}
